@@ -94,6 +94,30 @@ def lemma_other_python_types(I):
             else:
                 ok = False
             I.check("non_int_rejected_with_TypeError", ok)
+    # numerically equal values of different Python types, queried one after the other in both orders
+    # (a membership answer must not depend on an earlier query for an equal value of another type)
+    import decimal
+    import fractions
+
+    for name, (lo, hi) in RANGES.items():
+        T = getattr(P, name)
+        for v in (1, 100 if hi >= 100 else hi, hi):
+            I.check("int_member_after_nothing", isinstance(v, T))
+            for other in (float(v), decimal.Decimal(v), fractions.Fraction(v)):
+                if other == v:
+                    I.check("equal_valued_non_int_is_not_member_after_the_int_was_accepted", not isinstance(other, T))
+                    try:
+                        T(other)
+                        ok = False
+                    except TypeError:
+                        ok = True
+                    I.check("equal_valued_non_int_rejected_with_TypeError", ok)
+        w = 77 if hi >= 77 else 3
+        I.check("float_first_is_not_member", not isinstance(float(w), T))
+        I.check("int_is_member_after_an_equal_float_was_rejected", isinstance(w, T) and T(w) is w)
+    I.check("int_is_not_f64", not isinstance(3, P.f64))
+    I.check("float_is_f64_after_an_equal_int_was_rejected", isinstance(3.0, P.f64))
+    I.check("int_is_not_f64_after_the_float_was_accepted", not isinstance(3, P.f64))
     for x in (1, "1.0", None, True):
         I.check("non_float_is_not_f64", not isinstance(x, P.f64))
     for T in (P.i32Timedelta, P.i64Timedelta):
